@@ -1,7 +1,527 @@
-//! C21 — not implemented yet.
-use vcore::Ctx;
+//! C21 — AIG rewriting preserves every output function (synthesizer built
+//! with the experimental `aig` feature).
+//!
+//! Exhaustive part (`npn4`, marked `exhaustive` in the evidence):
+//!
+//! * all 65 536 4-input truth tables: `npn_canonical(tt) = (canon, t)` with
+//!   `t.apply(tt) == canon`, `t.apply` equal to an application of the
+//!   transform written here from the doc comments (permute, negate inputs,
+//!   negate output; bit m of a table = value at inputs m, bit 0 = x0), and
+//!   `canon` = the numerically least table of the NPN class, the class being
+//!   recomputed here as the orbit under all 768 = 24 · 16 · 2 transforms;
+//! * every library entry: `lookup_canonical(tt)` is queried for all 65 536
+//!   keys; an entry may only exist under a canonical key, its pattern must
+//!   compute its key (`AigPattern::tt()` and an evaluation of the AND /
+//!   inverter structure written here), and have at most `MAX_ANDS` gates;
+//! * `transform_pattern(p, t).tt() == t.apply(p.tt())` for every library
+//!   pattern and every one of the 768 transforms.
+//!
+//! Generated part (`netlists`): the C19 cases → `synthesize_with` (whose
+//! `conv::finalize` now runs aigify → rewrite → aig_to_cells_techmap) →
+//! netlist `g`.  On `g` the passes are run once more explicitly:
+//! `g2 = aig_to_cells_techmap(rewrite(aigify(g)), g)`, `g3 =
+//! aig_to_cells(aigify(g), g)`, `g4 = aig_to_cells(rewrite(aigify(g)), g)`.
+//! Every sink (output port bits, FF D pins, RAM input pins: clock, write
+//! address / data / enable / mask, read address) must compute the same Boolean
+//! function of the free variables (input ports, FF outputs, RAM read data)
+//! in `g` and in `g2` / `g3` / `g4`: 4096 random vectors (64-bit parallel) for
+//! all sinks, exhaustive enumeration for sinks whose support is ≤ 16 variables
+//! (all of them when ≤ 10, up to 8 per netlist otherwise).  Ports, flip-flops
+//! and RAM blocks must be carried over unchanged, the result must be
+//! well-formed (C20's structure oracle), and `g` (feature on), `g2` and `g3`
+//! must pass C19's cycle-by-cycle comparison with the RTL simulator.
 
-pub fn run(_ctx: &Ctx) {
-    println!("INCONCLUSIVE property=C21: check not implemented");
-    std::process::exit(2);
+use crate::c19;
+use crate::gate_eval::{self, Drv};
+use crate::synth_case::*;
+use crate::wellformed;
+use std::collections::{BTreeMap, BTreeSet};
+use vcore::{CaseCfg, Ctx, Draw, Outcome, hash_str, json};
+use vdesign::*;
+use veryl_synthesizer::aig::{convert, npn4, rewrite, techmap};
+use veryl_synthesizer::ir::{GateModule, PortDir};
+
+// ---------------------------------------------------------------------------
+// exhaustive part
+// ---------------------------------------------------------------------------
+
+/// all 24 permutations of 0..4
+fn perms() -> Vec<[u8; 4]> {
+    let mut out = vec![];
+    for a in 0..4u8 {
+        for b in 0..4u8 {
+            for c in 0..4u8 {
+                for d in 0..4u8 {
+                    let p = [a, b, c, d];
+                    let mut seen = [false; 4];
+                    for &x in &p {
+                        seen[x as usize] = true;
+                    }
+                    if seen.iter().all(|&s| s) {
+                        out.push(p);
+                    }
+                }
+            }
+        }
+    }
+    out
+}
+
+/// The transform as documented: new variable i = old variable perm[i]
+/// (`new_tt(y) = old_tt(z)`, `z[perm[i]] = y[i]`), then bit i of `in_neg`
+/// negates the i-th *new* input, then `out_neg` negates the output.
+fn my_apply(tt: u16, perm: [u8; 4], in_neg: u8, out_neg: bool) -> u16 {
+    let mut out = 0u16;
+    for y in 0..16u32 {
+        let yy = y ^ in_neg as u32;
+        let mut z = 0u32;
+        for i in 0..4 {
+            z |= ((yy >> i) & 1) << perm[i];
+        }
+        let v = ((tt as u32 >> z) & 1) as u16;
+        out |= v << y;
+    }
+    if out_neg { !out } else { out }
+}
+
+/// evaluation of a pattern from its structure: inputs 0..3, AND gate k is node 4 + k
+fn my_pattern_tt(p: &npn4::AigPattern) -> u16 {
+    let mut out = 0u16;
+    for m in 0..16u32 {
+        let mut vals: Vec<bool> = (0..4).map(|i| (m >> i) & 1 == 1).collect();
+        for &(a, b) in &p.ands {
+            let va = vals[a.0 as usize] ^ a.1;
+            let vb = vals[b.0 as usize] ^ b.1;
+            vals.push(va && vb);
+        }
+        let o = vals[p.output.0 as usize] ^ p.output.1;
+        out |= (o as u16) << m;
+    }
+    out
+}
+
+fn exhaustive(ctx: &Ctx) {
+    let ps = perms();
+    assert_eq!(ps.len(), 24);
+    // orbit minimum of every table, from the definition
+    let mut class_min = vec![u32::MAX; 65536];
+    let mut n_classes = 0;
+    for tt in 0..65536u32 {
+        if class_min[tt as usize] != u32::MAX {
+            continue;
+        }
+        let mut orbit: BTreeSet<u16> = BTreeSet::new();
+        for p in &ps {
+            for neg in 0..16u8 {
+                let t = my_apply(tt as u16, *p, neg, false);
+                orbit.insert(t);
+                orbit.insert(!t);
+            }
+        }
+        let mn = *orbit.iter().next().unwrap() as u32;
+        for &o in &orbit {
+            class_min[o as usize] = mn;
+        }
+        n_classes += 1;
+    }
+    ctx.note("npn_classes", json!(n_classes));
+    let mut bad: Vec<String> = vec![];
+    let mut lib_entries = 0;
+    let mut lib_sizes: BTreeMap<usize, u32> = BTreeMap::new();
+    let mut transform_checks = 0u64;
+    for tt in 0..65536u32 {
+        let t16 = tt as u16;
+        let (canon, t) = npn4::npn_canonical(t16);
+        let applied = t.apply(t16);
+        let mine = my_apply(t16, t.perm, t.in_neg, t.out_neg);
+        let mut perm_ok = [false; 4];
+        for &x in &t.perm {
+            if (x as usize) < 4 {
+                perm_ok[x as usize] = true;
+            }
+        }
+        if !perm_ok.iter().all(|&b| b) || t.in_neg > 15 {
+            bad.push(format!("transform-not-a-permutation: tt {tt:04x} -> {t:?}"));
+        } else if applied != canon {
+            bad.push(format!("transform-does-not-reach-canonical: tt {tt:04x}: apply = {applied:04x}, canonical {canon:04x}"));
+        } else if mine != applied {
+            bad.push(format!("apply-differs-from-documented-transform: tt {tt:04x} {t:?}: apply {applied:04x}, by the documentation {mine:04x}"));
+        } else if canon as u32 != class_min[tt as usize] {
+            bad.push(format!("canonical-not-class-minimum: tt {tt:04x}: canonical {canon:04x}, least table of the NPN class {:04x}", class_min[tt as usize]));
+        }
+        // library entry under this key?
+        if let Some(p) = npn4::lookup_canonical(t16) {
+            lib_entries += 1;
+            *lib_sizes.entry(p.size()).or_insert(0) += 1;
+            if class_min[tt as usize] != tt {
+                bad.push(format!("library-key-not-canonical: {tt:04x}"));
+            }
+            if p.tt() != t16 || my_pattern_tt(p) != t16 {
+                bad.push(format!("library-pattern-wrong-function: key {tt:04x}, tt() {:04x}, evaluated {:04x}", p.tt(), my_pattern_tt(p)));
+            }
+            if p.size() > npn4::MAX_ANDS as usize {
+                bad.push(format!("library-pattern-too-large: key {tt:04x} has {} ANDs", p.size()));
+            }
+            for a in &p.ands {
+                for e in [a.0, a.1] {
+                    if e.0 as usize >= 4 + p.ands.len() {
+                        bad.push(format!("library-pattern-dangling-edge: key {tt:04x}"));
+                    }
+                }
+            }
+            // transform_pattern commutes with apply, for all 768 transforms
+            for perm in &ps {
+                for neg in 0..16u8 {
+                    for on in [false, true] {
+                        let tr = npn4::NpnTransform {
+                            perm: *perm,
+                            in_neg: neg,
+                            out_neg: on,
+                        };
+                        let q = npn4::transform_pattern(p, tr);
+                        transform_checks += 1;
+                        let want = my_apply(t16, *perm, neg, on);
+                        if my_pattern_tt(&q) != want || q.tt() != tr.apply(t16) {
+                            if bad.len() < 20 {
+                                bad.push(format!("transform-pattern-does-not-commute: key {tt:04x} {tr:?}: pattern computes {:04x}, transform of the table {want:04x}", my_pattern_tt(&q)));
+                            }
+                        }
+                    }
+                }
+            }
+        }
+        if bad.len() >= 20 {
+            break;
+        }
+    }
+    ctx.note("npn_truth_tables_checked", json!(65536));
+    ctx.note("npn_library_entries", json!(lib_entries));
+    ctx.note("npn_library_sizes", json!(lib_sizes));
+    ctx.note("npn_transform_pattern_checks", json!(transform_checks));
+    let payload = json!({"what": "all 65536 truth tables"});
+    if let Some(b) = bad.first() {
+        let sig = b.split(':').next().unwrap_or("npn4").to_string();
+        ctx.record("npn4", Outcome::fail(format!("npn4:{sig}"), bad.join("\n"), payload.clone()), payload);
+    } else {
+        // one record per NPN class would hide that every table was visited: record the sweep as a whole
+        let classes = vec!["npn4:all_truth_tables".to_string(), format!("npn4:library_entries:{lib_entries}")];
+        ctx.record(
+            "npn4",
+            Outcome::pass(hash_str("npn4"), true, classes, format!("{n_classes} NPN classes, {lib_entries} library entries, {transform_checks} transform_pattern checks")),
+            payload,
+        );
+    }
+}
+
+// ---------------------------------------------------------------------------
+// generated part
+// ---------------------------------------------------------------------------
+
+fn sinks_of(m: &GateModule) -> Vec<u32> {
+    let mut s = vec![];
+    for p in &m.ports {
+        if matches!(p.dir, PortDir::Output | PortDir::Inout) {
+            s.extend(&p.nets);
+        }
+    }
+    for f in &m.ffs {
+        s.push(f.d);
+    }
+    m.for_each_ram_input_net(|x| s.push(x));
+    s
+}
+
+/// transitive support (leaf nets) of `net`
+fn support(m: &GateModule, t: &gate_eval::Topo, net: u32, limit: usize) -> Option<Vec<u32>> {
+    let mut seen: BTreeSet<u32> = BTreeSet::new();
+    let mut leaves: BTreeSet<u32> = BTreeSet::new();
+    let mut stack = vec![net];
+    while let Some(x) = stack.pop() {
+        if !seen.insert(x) {
+            continue;
+        }
+        match t.drv[x as usize] {
+            Drv::Cell(i) => stack.extend(&m.cells[i].inputs),
+            Drv::Const(_) => {}
+            _ => {
+                leaves.insert(x);
+                if leaves.len() > limit {
+                    return None;
+                }
+            }
+        }
+    }
+    Some(leaves.into_iter().collect())
+}
+
+struct SinkCmp {
+    sinks: usize,
+    exhaustive_sinks: usize,
+    leaves: usize,
+}
+
+/// Compare the sink functions of `a` (before) and `b` (after).
+fn compare_sinks(d: &mut Draw, a: &GateModule, b: &GateModule, what: &str) -> Result<SinkCmp, (String, String)> {
+    // carried over unchanged
+    if a.ports.len() != b.ports.len() || a.ports.iter().zip(&b.ports).any(|(x, y)| x.dir != y.dir || x.nets.len() != y.nets.len() || x.path != y.path) {
+        return Err((format!("{what}:ports-changed"), "the port list differs".into()));
+    }
+    for (x, y) in a.ports.iter().zip(&b.ports) {
+        if x.dir == PortDir::Input && x.nets != y.nets {
+            return Err((format!("{what}:input-port-nets-changed"), format!("input port {} changed its nets", x.name)));
+        }
+    }
+    if a.ffs.len() != b.ffs.len()
+        || a.ffs.iter().zip(&b.ffs).any(|(x, y)| {
+            x.q != y.q
+                || x.clock != y.clock
+                || x.clock_edge != y.clock_edge
+                || x.reset_value != y.reset_value
+                || x.reset.as_ref().map(|r| (r.net, r.polarity, r.sync)) != y.reset.as_ref().map(|r| (r.net, r.polarity, r.sync))
+        })
+    {
+        return Err((format!("{what}:flip-flops-changed"), "flip-flops (q / clock / edge / reset spec / reset value) differ".into()));
+    }
+    if a.ram_blocks.len() != b.ram_blocks.len()
+        || a.ram_blocks.iter().zip(&b.ram_blocks).any(|(x, y)| {
+            x.depth != y.depth
+                || x.width != y.width
+                || x.clock_edge != y.clock_edge
+                || x.read_ports.len() != y.read_ports.len()
+                || x.write_ports.len() != y.write_ports.len()
+                || x.read_ports.iter().zip(&y.read_ports).any(|(p, q)| p.data != q.data || p.sync != q.sync || p.addr.len() != q.addr.len())
+                || x.write_ports.iter().zip(&y.write_ports).any(|(p, q)| p.addr.len() != q.addr.len() || p.data.len() != q.data.len() || p.mask.as_ref().map(|m| m.len()) != q.mask.as_ref().map(|m| m.len()))
+        })
+    {
+        return Err((format!("{what}:ram-blocks-changed"), "RAM blocks (shape, ports, read data nets) differ".into()));
+    }
+    let st = wellformed::check_structure(b);
+    if let Some(f) = st.first() {
+        return Err((format!("{what}:not-well-formed:{}", f.0), f.1.clone()));
+    }
+    let ta = gate_eval::topo(a).map_err(|e| (format!("{what}:input-not-evaluable"), e))?;
+    let tb = gate_eval::topo(b).map_err(|e| (format!("{what}:not-evaluable:{e}"), e.clone()))?;
+    let sa = sinks_of(a);
+    let sb = sinks_of(b);
+    if sa.len() != sb.len() {
+        return Err((format!("{what}:sink-count"), format!("{} sinks before, {} after", sa.len(), sb.len())));
+    }
+    let la: BTreeSet<u32> = gate_eval::comb_leaves(a, &ta).into_iter().collect();
+    let lb: BTreeSet<u32> = gate_eval::comb_leaves(b, &tb).into_iter().collect();
+    // a free variable of the result must be one of the original (same net id: the net table layout is preserved)
+    for x in &lb {
+        if !la.contains(x) {
+            // a leaf that did not feed any sink before
+            if (*x as usize) >= a.nets.len() || matches!(ta.drv[*x as usize], Drv::Cell(_)) {
+                return Err((format!("{what}:new-free-variable"), format!("net n{x} is a free variable of the result but was driven by a cell (or did not exist) before")));
+            }
+        }
+    }
+    let leaves: Vec<u32> = la.union(&lb).copied().collect();
+    let mut va = vec![0u64; a.nets.len()];
+    let mut vb = vec![0u64; b.nets.len()];
+    let check = |va: &[u64], vb: &[u64], mask: u64| -> Option<usize> { (0..sa.len()).find(|&k| (va[sa[k] as usize] ^ vb[sb[k] as usize]) & mask != 0) };
+    let describe = |k: usize| -> String {
+        let n_out: usize = a.ports.iter().filter(|p| p.dir != PortDir::Input).map(|p| p.nets.len()).sum();
+        if k < n_out {
+            "an output port bit".to_string()
+        } else if k < n_out + a.ffs.len() {
+            "a flip-flop D pin".to_string()
+        } else {
+            "a RAM input pin".to_string()
+        }
+    };
+    // ---- 4096 random vectors
+    for _ in 0..64 {
+        for &x in &leaves {
+            let w = d.u64();
+            va[x as usize] = w;
+            if (x as usize) < vb.len() {
+                vb[x as usize] = w;
+            }
+        }
+        gate_eval::eval_comb64(a, &ta, &mut va);
+        gate_eval::eval_comb64(b, &tb, &mut vb);
+        if let Some(k) = check(&va, &vb, !0) {
+            let kind = describe(k);
+            return Err((format!("{what}:sink-function-changed:{}", kind.replace(' ', "-")), format!("sink {k} ({kind}, net n{} before / n{} after) computes a different function (random vectors)", sa[k], sb[k])));
+        }
+    }
+    // ---- exhaustive for small supports
+    let mut exh = 0;
+    let mut budget_16 = 8;
+    for k in 0..sa.len() {
+        let Some(sup_a) = support(a, &ta, sa[k], 16) else { continue };
+        let Some(sup_b) = support(b, &tb, sb[k], 16) else { continue };
+        let sup: Vec<u32> = sup_a.iter().chain(sup_b.iter()).copied().collect::<BTreeSet<u32>>().into_iter().collect();
+        if sup.len() > 16 || sup.is_empty() {
+            continue;
+        }
+        if sup.len() > 10 {
+            if budget_16 == 0 {
+                continue;
+            }
+            budget_16 -= 1;
+        }
+        exh += 1;
+        let n = sup.len();
+        let total: u64 = 1u64 << n;
+        let mut base = 0u64;
+        while base < total {
+            // assignment number base + lane
+            for (i, &x) in sup.iter().enumerate() {
+                let w = if i < 6 {
+                    [0xAAAA_AAAA_AAAA_AAAAu64, 0xCCCC_CCCC_CCCC_CCCC, 0xF0F0_F0F0_F0F0_F0F0, 0xFF00_FF00_FF00_FF00, 0xFFFF_0000_FFFF_0000, 0xFFFF_FFFF_0000_0000][i]
+                } else if (base >> i) & 1 == 1 {
+                    !0
+                } else {
+                    0
+                };
+                va[x as usize] = w;
+                if (x as usize) < vb.len() {
+                    vb[x as usize] = w;
+                }
+            }
+            gate_eval::eval_comb64(a, &ta, &mut va);
+            gate_eval::eval_comb64(b, &tb, &mut vb);
+            let mask = if total < 64 { (1u64 << total) - 1 } else { !0 };
+            if (va[sa[k] as usize] ^ vb[sb[k] as usize]) & mask != 0 {
+                let kind = describe(k);
+                return Err((format!("{what}:sink-function-changed:{}", kind.replace(' ', "-")), format!("sink {k} ({kind}) computes a different function (exhaustive over its {n} support variables)")));
+            }
+            base += 64;
+        }
+    }
+    Ok(SinkCmp {
+        sinks: sa.len(),
+        exhaustive_sinks: exh,
+        leaves: leaves.len(),
+    })
+}
+
+fn one_case(d: &mut Draw) -> Outcome {
+    // no trigger shapes of C19's known findings: a mismatch here is about the AIG path
+    let case = gen_case_with(d, 0);
+    let a = match Analyzed::new(&case.text) {
+        Ok(a) => a,
+        Err(r) => {
+            let code = r.errors.first().map(|e| e.0.clone()).unwrap_or_default();
+            return Outcome::skip(format!("generated text rejected by the analyzer ({}:{code})", r.stage));
+        }
+    };
+    let sr = match synthesize(&a, case.library, case.ram) {
+        Synth::Ok(r) => r,
+        Synth::Rejected(why) => return Outcome::skip(format!("synthesizer rejects the design ({why})")),
+        Synth::Panic(msg) => {
+            return Outcome::fail(
+                format!("panic-with-aig-feature:{msg}"),
+                format!("the synthesizer panics with the aig feature on\n{}", case.text),
+                json!({"veryl": case.text, "options": case.options_json()}),
+            );
+        }
+    };
+    let g = &sr.gate_ir.module;
+    let payload = json!({"veryl": case.text, "options": case.options_json(), "stimulus": stim_json(&case.stim)});
+    let fail = |sig: String, msg: String| Outcome::fail(sig, format!("{msg}\n{}\n// options: {}", case.text, case.options_json()), payload.clone());
+    // ---- the passes once more on the result
+    let run = std::panic::catch_unwind(std::panic::AssertUnwindSafe(|| {
+        let aig = convert::aigify(g);
+        let rw = rewrite::rewrite(&aig);
+        let g2 = techmap::aig_to_cells_techmap(&rw, g);
+        let g3 = convert::aig_to_cells(&aig, g);
+        let g4 = convert::aig_to_cells(&rw, g);
+        (aig.and_count(), rw.and_count(), g2, g3, g4)
+    }));
+    let (ands, ands_rw, g2, g3, g4) = match run {
+        Ok(x) => x,
+        Err(e) => {
+            let msg = e.downcast_ref::<&str>().map(|s| s.to_string()).or_else(|| e.downcast_ref::<String>().cloned()).unwrap_or_else(|| "panic".into());
+            let msg: String = msg.chars().filter(|c| !c.is_ascii_digit()).take(80).collect();
+            return fail(format!("aig-pass-panics:{msg}"), "aigify / rewrite / aig_to_cells panics on a netlist the synthesizer returned".into());
+        }
+    };
+    let mut classes = case.classes.clone();
+    classes.push(format!("family:{}", case.family));
+    netlist_classes(g, &mut classes);
+    let mut exh = 0;
+    for (m2, what) in [(&g2, "rewrite+techmap"), (&g3, "aig_to_cells"), (&g4, "rewrite+aig_to_cells")] {
+        match compare_sinks(d, g, m2, what) {
+            Ok(c) => {
+                exh += c.exhaustive_sinks;
+                if c.sinks > 0 && what == "rewrite+techmap" {
+                    classes.push(format!("sinks:{}", if c.sinks <= 8 { "1_8" } else if c.sinks <= 64 { "9_64" } else { "gt64" }));
+                    classes.push(format!("leaves:{}", if c.leaves <= 16 { "le16" } else { "gt16" }));
+                }
+            }
+            Err((sig, msg)) => return fail(sig, msg),
+        }
+    }
+    if exh > 0 {
+        classes.push("sinks:some_exhaustive".into());
+    }
+    if ands_rw < ands {
+        classes.push("rewrite:fewer_ands".into());
+    }
+    if ands > 0 {
+        classes.push("aig:has_ands".into());
+    }
+    let mut kinds: BTreeSet<&'static str> = BTreeSet::new();
+    for c in &g2.cells {
+        kinds.insert(c.kind.symbol());
+    }
+    for k in kinds {
+        classes.push(format!("techmap:{k}"));
+    }
+    // ---- cycle by cycle: feature-on netlist, and the two re-mapped ones
+    let rtl = match c19::run_rtl(&a, &case.stim) {
+        Ok(t) => t,
+        Err(e) => {
+            let e: String = e.chars().filter(|c| !c.is_ascii_digit()).take(60).collect();
+            return Outcome::skip(format!("RTL simulator: {e}"));
+        }
+    };
+    let mut compared = 0;
+    let mut activity = false;
+    for (m2, what) in [(g, "feature-on-netlist"), (&g2, "rewrite+techmap"), (&g3, "aig_to_cells")] {
+        match c19::gate_vs_rtl(m2, &case, &case.stim, &rtl) {
+            c19::GateRun::Broken(sig) => return fail(format!("{what}:{sig}"), "the netlist cannot be simulated".into()),
+            c19::GateRun::Done(Some(mm), _) => {
+                let known = case.design.as_ref().map(|dsg| crate::synth_findings::design_hits(dsg)).unwrap_or_default();
+                if what == "feature-on-netlist" && !known.is_empty() {
+                    return Outcome::skip("netlist differs from RTL on a design with the trigger shape of a C19 known finding");
+                }
+                return fail(
+                    format!("{what}:differs-from-rtl"),
+                    format!("output {} after step {}: gate {:x} (X {:x}), RTL {:x}", case.stim.outputs[mm.output].name, mm.step, mm.gate, mm.gate_x, mm.rtl),
+                );
+            }
+            c19::GateRun::Done(None, st) => {
+                compared += st.compared_bits;
+                activity |= st.activity;
+            }
+        }
+    }
+    let nt = nontrivial(g) && ands > 0 && compared > 0 && activity;
+    let sample = format!("{}// options: {}", case.text, case.options_json());
+    Outcome::pass(hash_str(&format!("{sample}{}", stim_json(&case.stim))), nt, classes, sample)
+}
+
+pub fn run(ctx: &Ctx) {
+    if let Err(e) = gate_eval::self_test().and_then(|_| crate::selftest::ram_self_test()) {
+        println!("INCONCLUSIVE property=C21: gate evaluator self-test failed: {e}");
+        std::process::exit(2);
+    }
+    if !ctx.replay_mode() || ctx.replay_for("npn4").is_some() {
+        exhaustive(ctx);
+    }
+    let n = std::env::var("C21_CASES").ok().and_then(|s| s.parse::<usize>().ok()).unwrap_or(ctx.scale(300, 20_000));
+    ctx.run("netlists", CaseCfg::cases(n).choices(12_000).timeout_s(600), |d| c19::discover("C21", one_case(d)));
+    ctx.set_exhaustive(false);
+    ctx.note("exhaustive_part", json!("npn4: all 65536 4-input truth tables, all library entries, all 768 transforms of every library pattern"));
+    ctx.assume("truth table convention of npn4.rs: bit m of a table is the value at inputs m (bit 0 = x0); NpnTransform = permute (new variable i is old variable perm[i]), then negate new inputs by in_neg, then negate the output");
+    ctx.assume("the netlists are the synthesizer's own results (feature on); the AIG passes are applied to them once more, which exercises every CellKind in aigify and every template in techmap on netlists with flip-flops and RAM blocks");
+    ctx.finish(
+        "exploration",
+        "exhaustive sweep of npn4 (65536 tables) + the C19 cases (same generator, no known-finding shapes) through aigify / rewrite / aig_to_cells_techmap / aig_to_cells: sink functions by 4096 random vectors and exhaustive enumeration of small supports, structure, and cycle-by-cycle comparison with the RTL simulator; non-trivial = netlist has FFs and > 20 cells or a RAM block, the AIG has AND nodes, known output bits were compared and some output changed",
+    );
 }
